@@ -833,6 +833,51 @@ def _whichdo_failures():
     return fails, n
 
 
+def _lost_reader_failures():
+    """Bounded: a redo whose log reader goes away, on the real binaries.  `redo --no-log --no-pretty t` (and `-j2 t u`) with
+    stderr a pipe whose reading end is closed after the first byte, while t.do is still running: the records that follow
+    cannot be written.  The build must still finish (exit 0), and the target must keep following its source afterwards (no
+    'you modified it', which is what a process that died between rename and COMMIT leaves).  -> (failures, n) or None"""
+    bindir = build_redo_bin()
+    if not bindir:
+        return None
+    env = {k: v for k, v in os.environ.items() if not k.startswith('REDO') and k != 'MAKEFLAGS'}
+    env['PATH'] = bindir + ':' + env.get('PATH', '')
+    work = tempfile.mkdtemp(prefix='redo-verif-lost.', dir='/var/tmp')
+    fails, n = [], 0
+    try:
+        for args in (['t'], ['-j2', 't', 'u']):
+            n += 1
+            proj = os.path.join(work, 'p%d' % n)
+            os.makedirs(proj)
+            for t in ('t', 'u'):
+                open(os.path.join(proj, t + '.do'), 'w').write('redo-ifchange src\nsleep 0.4\ncat src\n')
+            open(os.path.join(proj, 'src'), 'w').write('one\n')
+            cmd = ['redo', '--no-log', '--no-pretty'] + args
+            pr = subprocess.Popen(cmd, cwd=proj, env=env, stdout=subprocess.DEVNULL, stderr=subprocess.PIPE)
+            pr.stderr.read(1)
+            pr.stderr.close()
+            try:
+                rc = pr.wait(timeout=60)
+            except subprocess.TimeoutExpired:
+                pr.kill()
+                rc = None
+            hist = '%s with stderr a pipe closed after its first byte' % ' '.join(cmd)
+            got = open(os.path.join(proj, 't')).read() if os.path.exists(os.path.join(proj, 't')) else None
+            if rc != 0 or got != 'one\n':
+                fails.append(dict(input=hist, observed='exit %s, t = %r' % (rc, got), clause='a record that cannot be written is lost, the build goes on and succeeds'))
+                continue
+            open(os.path.join(proj, 'src'), 'w').write('two, longer\n')
+            r = subprocess.run(['redo-ifchange', 't'], cwd=proj, env=env, capture_output=True, text=True, timeout=60)
+            got = open(os.path.join(proj, 't')).read() if os.path.exists(os.path.join(proj, 't')) else None
+            if r.returncode != 0 or got != 'two, longer\n':
+                fails.append(dict(input=hist + '; edit src; redo-ifchange t', observed='exit %d, t = %r; %s' % (r.returncode, got, r.stderr.strip()[-200:]),
+                                  clause='after a run that lost its log reader the target still follows its source'))
+    finally:
+        shutil.rmtree(work, ignore_errors=True)
+    return fails, n
+
+
 def _corpus_failures(prop):
     """Bounded: the demonstration scripts of the seeded changes kept for this property (seeded/<id>/demo/demo.sh, listed in
     seeded/corpus.json with the clause each one checks).  Each is a concrete history with the real binaries that exits 0
@@ -1002,6 +1047,13 @@ def conformance(prop, unit_names, pins_changed, labels_props):
             out.append(dict(oid='gluebins/ifchange_build/ifchange.every_argument_goes_through_the_builder', msg='clause fails on the real binaries for a concrete history (bounded probe cycle-shapes, %d histories)' % r[1],
                             where=REPO + '/src/bin/redo/ifchange.rs:run', site=None, text=hits[0]['clause'], rendered=json.dumps(hits[:6], indent=1), inputs=[h['input'] for h in hits],
                             fn='ifchange_build', label='ifchange.every_argument_goes_through_the_builder', props=['C12']))
+    if 'logs' in unit_names and prop in ('C10', 'C09', 'C18'):
+        r = _lost_reader_failures()
+        if r and r[0]:
+            hits = r[0]
+            out.append(dict(oid='logs/rawlog_write_line/rawlog.a_failed_write_is_not_fatal', msg='clause fails on the real binaries for a concrete history (bounded probe lost-reader, %d histories)' % r[1],
+                            where=REPO + '/src/logs.rs:RawLog::write_line', site=None, text=hits[0]['clause'], rendered=json.dumps(hits[:6], indent=1), inputs=[h['input'] for h in hits],
+                            fn='rawlog_write_line', label='rawlog.a_failed_write_is_not_fatal', props=[prop]))
     if 'dofiles' in unit_names and prop == 'C13':
         r = _whichdo_failures()
         by = {}
@@ -1066,6 +1118,8 @@ def bounded(prop, unit_names, labels_props):
         if prop == 'C08':
             extra.append(('cheatpipe', _cheatpipe_failures, 'tokens/setup_cheat_fds/setup.own_jobserver_owns_its_debts', lambda h: True))
             extra.append(('conserve', _conserve_failures, 'tokens/do_force_return_tokens/exit.one_token', lambda h: True))
+        if prop in ('C10', 'C09', 'C18'):
+            extra.append(('lost-reader', _lost_reader_failures, 'logs/rawlog_write_line/rawlog.a_failed_write_is_not_fatal', lambda h: True))
         if prop == 'C12':
             extra.append(('cycle-shapes', _cycle_shapes_failures, 'gluebins/ifchange_build/ifchange.every_argument_goes_through_the_builder', lambda h: True))
         if prop in ('C09', 'C07', 'C15'):
